@@ -3,8 +3,6 @@
 package knx
 
 import (
-	"container/list"
-
 	"github.com/vapourismo/knx-go/knx/cemi"
 	"github.com/vapourismo/knx-go/knx/knxnet"
 )
@@ -19,7 +17,9 @@ func c12Event(n int) GroupEvent {
 		Destination: cemi.GroupAddr(nondetU16()), Data: nondetBytes(n)}
 }
 
-func c12CheckLData(ld *cemi.LData, ev GroupEvent, n int) {
+// c12CheckLData: wire = the frame was read back from its byte encoding, which keeps only the low six
+// bits of the first payload byte and carries an empty payload as one zero byte.
+func c12CheckLData(ld *cemi.LData, ev GroupEvent, n int, wire bool) {
 	verifAssert("C12.out.group_flag", ld.Control2.IsGroupAddr())
 	verifAssert("C12.out.hops", uint8(ld.Control2)>>4&7 == 6)
 	verifAssert("C12.out.prio_low", uint8(ld.Control1)>>2&3 == 3)
@@ -28,10 +28,40 @@ func c12CheckLData(ld *cemi.LData, ev GroupEvent, n int) {
 	app, ok := ld.Data.(*cemi.AppData)
 	verifAssert("C12.out.appdata", ok)
 	verifAssert("C12.out.apci", uint8(app.Command) == uint8(ev.Command) && !app.Numbered)
+	if wire && n == 0 {
+		verifAssert("C12.out.payload_len", len(app.Data) == 1 && app.Data[0] == 0)
+		return
+	}
 	verifAssert("C12.out.payload_len", len(app.Data) == n)
 	for i := 0; i < n; i++ {
+		if wire && i == 0 {
+			verifAssert("C12.out.payload", app.Data[0] == ev.Data[0]&0x3F)
+			continue
+		}
 		verifAssert("C12.out.payload", app.Data[i] == ev.Data[i])
 	}
+}
+
+// c12RouterLData decodes datagram i written by the router client built by newGroupRouterEnv.
+func c12RouterLData(i int) *cemi.LData {
+	var srv knxnet.Service
+	_, err := knxnet.Unpack(verifNetWrite(i), &srv)
+	verifAssert("C12.out.decodes", err == nil)
+	ind, ok := srv.(*knxnet.RoutingInd)
+	verifAssert("C12.out.kind", ok)
+	m, ok := ind.Payload.(*cemi.LDataInd)
+	verifAssert("C12.out.ind", ok && m.MessageCode() == cemi.LDataIndCode)
+	return &m.LData
+}
+
+// newGroupRouterEnv builds the group router client through its real constructor (see zz_verif_router.go).
+func newGroupRouterEnv() GroupRouter {
+	knxnet.VerifReset("udp")
+	gr, err := NewGroupRouter("224.0.23.12:3671", RouterConfig{RetainCount: 2})
+	if err != nil {
+		verifFail("env.router_constructor")
+	}
+	return gr
 }
 
 // HarnessC12Out: a = {0 tunnel | 1 router, payload length}: one group event sent through the
@@ -48,16 +78,12 @@ func HarnessC12Out(a []int) {
 		verifAssert("C12.out.kind", ok)
 		m, ok := req.Payload.(*cemi.LDataReq)
 		verifAssert("C12.out.req", ok && m.MessageCode() == cemi.LDataReqCode)
-		c12CheckLData(&m.LData, ev, n)
+		c12CheckLData(&m.LData, ev, n, false)
 	} else {
-		gr := GroupRouter{Router: &Router{sock: sock, config: RouterConfig{RetainCount: 2}, retainer: list.New()}}
+		gr := newGroupRouterEnv()
 		err := gr.Send(ev)
-		verifAssert("C12.out.sent", err == nil && len(sock.log) == 1)
-		ind, ok := sock.log[0].(*knxnet.RoutingInd)
-		verifAssert("C12.out.kind", ok)
-		m, ok := ind.Payload.(*cemi.LDataInd)
-		verifAssert("C12.out.ind", ok && m.MessageCode() == cemi.LDataIndCode)
-		c12CheckLData(&m.LData, ev, n)
+		verifAssert("C12.out.sent", err == nil && verifNetWrites() == 1)
+		c12CheckLData(c12RouterLData(0), ev, n, true)
 	}
 	verifCover("C12.out.end")
 }
@@ -141,12 +167,10 @@ func init() {
 func HarnessC12E2E(a []int) {
 	n := a[0]
 	ev := c12Event(n)
-	sock := newVSock()
-	gr := GroupRouter{Router: &Router{sock: sock, config: RouterConfig{RetainCount: 2}, retainer: list.New()}}
-	verifAssert("C12.e2e.sent", gr.Send(ev) == nil && len(sock.log) == 1)
-	wire := knxnet.AllocAndPack(sock.log[0])
+	gr := newGroupRouterEnv()
+	verifAssert("C12.e2e.sent", gr.Send(ev) == nil && verifNetWrites() == 1)
 	var srv knxnet.Service
-	_, err := knxnet.Unpack(wire, &srv)
+	_, err := knxnet.Unpack(verifNetWrite(0), &srv)
 	verifAssert("C12.e2e.decodes", err == nil)
 	ind, ok := srv.(*knxnet.RoutingInd)
 	verifAssert("C12.e2e.kind", ok)
@@ -190,15 +214,15 @@ func HarnessC12OutSeq(a []int) {
 			lds[i] = &sock.log[i].(*knxnet.TunnelReq).Payload.(*cemi.LDataReq).LData
 		}
 	} else {
-		gr := GroupRouter{Router: &Router{sock: sock, config: RouterConfig{RetainCount: 2}, retainer: list.New()}}
+		gr := newGroupRouterEnv()
 		verifAssert("C12.out.sent", gr.Send(ev1) == nil)
 		verifQuiesce()
-		verifAssert("C12.out.sent", gr.Send(ev2) == nil && len(sock.log) == 2)
+		verifAssert("C12.out.sent", gr.Send(ev2) == nil && verifNetWrites() == 2)
 		for i := range lds {
-			lds[i] = &sock.log[i].(*knxnet.RoutingInd).Payload.(*cemi.LDataInd).LData
+			lds[i] = c12RouterLData(i)
 		}
 	}
-	c12CheckLData(lds[0], ev1, a[1])
-	c12CheckLData(lds[1], ev2, a[2])
+	c12CheckLData(lds[0], ev1, a[1], a[0] == 1)
+	c12CheckLData(lds[1], ev2, a[2], a[0] == 1)
 	verifCover("C12.outseq.end")
 }
